@@ -44,7 +44,7 @@ var triggers = []trigger{
 		return multiPar(cfg) && cfg.Variant == "mvp6-2" && a.shadowWawUncommitted
 	}},
 	{"shadow-branch-commits", func(a *analysis, cfg sim.Config) bool {
-		return multiPar(cfg) && cfg.Variant != "mvp6-0" && cfg.Variant != "mvp6-1" && a.shadowBranchSlow
+		return multiPar(cfg) && cfg.Variant != "mvp6-0" && a.shadowBranchSlow
 	}},
 	{"rename-order", func(a *analysis, cfg sim.Config) bool { return multiPar(cfg) && renames(cfg.Variant) && a.renameOrder }},
 	{"mem-conflict-undrained", func(a *analysis, cfg sim.Config) bool { return multiPar(cfg) && a.memConflict }},
